@@ -82,7 +82,9 @@ class _transform:
         got = elems(result)
         shape = shape_of(result) if isarray(result) else ()
         ok_shape = shape in (((), (1,)) if (a._cfg_n is None and k == 1) else (((k,),) if a._cfg_n is None else ((a._cfg_n,), (a._cfg_n, k))[k > 1:][:1] if False else (((a._cfg_n,),) if k == 1 else ((a._cfg_n, k),))))
-        return And(ok_shape, same(got, want), same(elems(a.value), elems(old.value)))
+        # the coordinates are compared as real numbers (exact symbolically, up to rounding concretely): an algebraically equal
+        # way of computing a radius that differs in the last bit is not a different coordinate
+        return And(ok_shape, len(got) == len(want), *[close(g, w) for g, w in zip(got, want)], same(elems(a.value), elems(old.value)))
 
 
 
